@@ -22,8 +22,83 @@ func init() { register("C04/linalg", checkC04) }
 func genC04(t *rapid.T) C04Case {
 	op := rapid.SampledFrom([]string{"matmul", "matmul", "dot", "transpose"}).Draw(t, "op")
 	cfg := prog.SingleCfg{MaxRank: 6, MaxDim: 4, MaxElems: 400, Expand: true, Mags: rapid.IntRange(0, 2).Draw(t, "mags") == 0}
-	return C04Case{P: prog.GenSingle(t, op, cfg)}
+	p := prog.GenSingle(t, op, cfg)
+	// a third of the cases give the trailing matrices of each operand a special structure
+	// (triangular, diagonal, identity, permutation, symmetric, zero, one non-zero entry): the
+	// defined product does not depend on structure
+	if op != "dot" && rapid.IntRange(0, 2).Draw(t, "structured") == 0 {
+		for i := range p.Leaves {
+			structureMatrices(t, p.Leaves[i].Shape, p.Leaves[i].Vals)
+		}
+	}
+	for i := range p.Leaves {
+		p.Leaves[i].Tracked = rapid.IntRange(0, 3).Draw(t, "tracked") == 0 // values do not depend on tracking
+	}
+	return C04Case{P: p}
 }
+
+var matrixStructures = []string{"upper", "lower", "strict_upper", "diagonal", "identity", "permutation", "symmetric", "zero", "single", "dense"}
+
+// structureMatrices rewrites every trailing matrix of a tensor in place.
+func structureMatrices(t *rapid.T, shape []int, v []float64) {
+	if len(shape) < 2 {
+		return
+	}
+	r, c := shape[len(shape)-2], shape[len(shape)-1]
+	for base := 0; base < len(v); base += r * c {
+		m := v[base : base+r*c]
+		kind := rapid.SampledFrom(matrixStructures).Draw(t, "structure")
+		var perm []int
+		if kind == "permutation" {
+			perm = rapid.Permutation(seq(c)).Draw(t, "perm")
+		}
+		hot := rapid.IntRange(0, r*c-1).Draw(t, "hot")
+		for i := 0; i < r; i++ {
+			for j := 0; j < c; j++ {
+				e := &m[i*c+j]
+				switch kind {
+				case "upper":
+					if j < i {
+						*e = 0
+					}
+				case "lower":
+					if j > i {
+						*e = 0
+					}
+				case "strict_upper":
+					if j <= i {
+						*e = 0
+					}
+				case "diagonal":
+					if j != i {
+						*e = 0
+					}
+				case "identity":
+					*e = 0
+					if j == i {
+						*e = 1
+					}
+				case "permutation":
+					*e = 0
+					if perm[i%c] == j {
+						*e = 1
+					}
+				case "symmetric":
+					if j < i && j < r && i < c {
+						*e = m[j*c+i]
+					}
+				case "zero":
+					*e = 0
+				case "single":
+					if i*c+j != hot {
+						*e = 0
+					}
+				}
+			}
+		}
+	}
+}
+
 
 func checkC04(c C04Case) *Failure {
 	if len(c.P.Nodes) != 1 {
@@ -36,7 +111,7 @@ func checkC04(c C04Case) *Failure {
 	}
 	leaves, y, err := libForward(c.P)
 	if err != nil {
-		return failf("%s rejected valid operands: %v", n.Op, err)
+		return failf("%s failed on valid operands: %v", n.Op, err)
 	}
 	mode, scale := cmpBits, []float64(nil)
 	if n.Op != "transpose" {
@@ -114,6 +189,11 @@ func checkC04(c C04Case) *Failure {
 	}
 	evid.Eval()
 	evid.Class("C04.op=" + n.Op)
+	if n.Op == "matmul" {
+		if k := matrixKind(c.P.Leaves[n.In[0]]); k != "" {
+			evid.Class("C04.first_operand_" + k)
+		}
+	}
 	evid.Class(fmt.Sprintf("C04.rank=%d", maxRankOf(c.P)))
 	nt := false
 	if len(n.In) == 2 {
@@ -146,6 +226,42 @@ func checkC04(c C04Case) *Failure {
 		evid.NonTrivial(c)
 	}
 	return nil
+}
+
+// matrixKind classifies the first trailing matrix of a leaf (evidence only).
+func matrixKind(l prog.Leaf) string {
+	if len(l.Shape) < 2 {
+		return ""
+	}
+	r, c := l.Shape[len(l.Shape)-2], l.Shape[len(l.Shape)-1]
+	if r < 2 || c < 2 {
+		return ""
+	}
+	below, above, off := false, false, false
+	for i := 0; i < r; i++ {
+		for j := 0; j < c; j++ {
+			if l.Vals[i*c+j] != 0 {
+				if j < i {
+					below = true
+				}
+				if j > i {
+					above = true
+				}
+				if j != i {
+					off = true
+				}
+			}
+		}
+	}
+	switch {
+	case !off:
+		return "diagonal_or_zero"
+	case !below:
+		return "upper_triangular"
+	case !above:
+		return "lower_triangular"
+	}
+	return ""
 }
 
 func TestC04_linalg(t *testing.T) {
